@@ -317,6 +317,10 @@ def handleP (d : DSt) : List String → DSt × String
     match w.toNat? with
     | some w => let p := Pipe.step d.ppol d.p (.writeFail w); ({ d with p := p }, s!"pc={pPcStr (p.pc w)}")
     | none => (d, "bad-op")
+  | ["abort", w] =>
+    match w.toNat? with
+    | some w => let p := Pipe.step d.ppol d.p (.abort w); ({ d with p := p }, s!"pc={pPcStr (p.pc w)}")
+    | none => (d, "bad-op")
   | ["close", c] =>
     match c.toNat? with
     | some c => let p := Pipe.step d.ppol d.p (.connClose c); ({ d with p := p }, s!"closed={b01 (p.closed c)}")
